@@ -32,6 +32,9 @@ static int fi_is_wakeup(int fd) {
   if (!loop_ok) return 0;
   return fd == L.signal_pipefd[0] || fd == L.signal_pipefd[1] || fd == L.async_io_watcher.fd || fd == L.async_wfd;
 }
+static int fi_is_sigpipe(int fd) { return loop_ok && fd >= 0 && fd == L.signal_pipefd[1]; }
+static int fd_snapshot(int* out, int max);
+static int fi_count_fds(void) { int f[512]; return fd_snapshot(f, 512); }
 static int scen_arg;
 
 static void fi_flush_and_exit(int code) {
@@ -212,6 +215,11 @@ static void run_case(const char* scen, const char* plan, const char* wdir) {
   if (fi_parse(plan)) { ev("BADPLAN"); fi_flush_and_exit(4); }
   uv_replace_allocator(fi_malloc, fi_realloc, fi_calloc, fi_free);
   nbase = fd_snapshot(base_fds, 256);
+  /* the logs are allocated up front: libuv's signal handler makes wrapped calls, and growing a
+     buffer there could re-enter malloc */
+  ev_cap = pt_cap = 4u << 20;
+  ev_buf = malloc(ev_cap); pt_buf = malloc(pt_cap);
+  ev_buf[0] = pt_buf[0] = 0;
   alarm(20);
   __sanitizer_set_death_callback(on_death);
   signal(SIGABRT, on_sigabrt);
@@ -330,6 +338,7 @@ int main(int argc, char** argv) {
     } else if (WEXITSTATUS(status) == 0) st = "EXIT0";
     else if (WEXITSTATUS(status) == 77) st = "ABORT";
     else if (WEXITSTATUS(status) == 78) st = "ASSERT";
+    else if (WEXITSTATUS(status) == 79) st = "SPIN";
     else if (WEXITSTATUS(status) == 98) st = "ASAN";
     else { snprintf(stb, sizeof stb, "EXIT%d", WEXITSTATUS(status)); st = stb; }
     digest(err, dg, sizeof dg);
